@@ -242,6 +242,53 @@ theorem forward_eq_likelihood (m : Hmm) (obs : List Nat) (h : obs ≠ []) : forw
 def IsArgmax (sel : Sel) : Prop :=
   ∀ (c t : Nat → Nat) (n : Nat), 0 < n → sel c t n < n ∧ ∀ k, k < n → c k * t k ≤ c (sel c t n) * t (sel c t n)
 
+/-- what the Viterbi proof needs of the arg-max over the last column -/
+def IsPick (pick : Pick) : Prop :=
+  ∀ (f : Nat → Nat) (n : Nat), 0 < n → pick f n < n ∧ ∀ k, k < n → f k ≤ f (pick f n)
+
+theorem isPick_argmaxLast : IsPick argmaxLast :=
+  fun f _ hn => ⟨argmaxLast_lt f hn, fun _ hk => le_argmaxLast f hk⟩
+
+theorem isPick_argmaxFirst : IsPick argmaxFirst := by
+  intro f n hn
+  induction n with
+  | zero => cases hn
+  | succ n ih =>
+    simp only [argmaxFirst]
+    cases n with
+    | zero =>
+      refine ⟨by split <;> simp [argmaxFirst], ?_⟩
+      intro k hk
+      have : k = 0 := by omega
+      subst this
+      split <;> simp_all [argmaxFirst]
+    | succ n =>
+      obtain ⟨hb, hub⟩ := ih (by omega)
+      split
+      · refine ⟨by omega, ?_⟩
+        intro k hk
+        by_cases hkn : k = n + 1
+        · subst hkn; exact Nat.le_refl _
+        · have := hub k (by omega); omega
+      · refine ⟨by omega, ?_⟩
+        intro k hk
+        by_cases hkn : k = n + 1
+        · subst hkn; omega
+        · exact hub k (by omega)
+
+theorem argmaxLast_congr {f g : Nat → Nat} {n : Nat} (h : ∀ k, k < n → f k = g k) :
+    argmaxLast f n = argmaxLast g n := by
+  induction n with
+  | zero => rfl
+  | succ n ih =>
+    have ih' := ih (fun k hk => h k (by omega))
+    simp only [argmaxLast, ih', h n (by omega)]
+    cases n with
+    | zero => simp [argmaxLast, h 0 (by omega)]
+    | succ n =>
+      have hlt : argmaxLast g (n + 1) < n + 1 := argmaxLast_lt g (by omega)
+      rw [h _ (by omega)]
+
 theorem isArgmax_selLast : IsArgmax selLast := by
   intro c t n hn
   exact ⟨argmaxLast_lt _ hn, fun k hk => le_argmaxLast (fun k => c k * t k) hk⟩
@@ -317,21 +364,22 @@ theorem ix_stepV_ub {sel : Sel} (hsel : IsArgmax sel) (m : Hmm) (col : List Nat)
 /-- main invariant of the traceback: the traced path starts in a state `k0`, continues with a path `π` of the
 right length, its weight from `col` on equals the reported value, and no other start state / continuation
 has a larger weight. -/
-theorem traceback_spec {sel : Sel} (hsel : IsArgmax sel) (m : Hmm) (hS : 0 < m.S) (os : List Nat) : ∀ col : List Nat,
-    ∃ k0 π, (tracebackW m.S m.fin col (matFrom sel m col os)).1 = k0 :: π ∧ k0 < m.S ∧ π ∈ paths m.S os.length ∧
-      ix col k0 * chain m k0 os π = (tracebackW m.S m.fin col (matFrom sel m col os)).2 ∧
+theorem traceback_spec {sel : Sel} (hsel : IsArgmax sel) {pick : Pick} (hpick : IsPick pick) (m : Hmm) (hS : 0 < m.S)
+    (os : List Nat) : ∀ col : List Nat,
+    ∃ k0 π, (tracebackW pick m.S m.fin col (matFrom sel m col os)).1 = k0 :: π ∧ k0 < m.S ∧ π ∈ paths m.S os.length ∧
+      ix col k0 * chain m k0 os π = (tracebackW pick m.S m.fin col (matFrom sel m col os)).2 ∧
       ∀ k, k < m.S → ∀ ρ ∈ paths m.S os.length,
-        ix col k * chain m k os ρ ≤ (tracebackW m.S m.fin col (matFrom sel m col os)).2 := by
+        ix col k * chain m k os ρ ≤ (tracebackW pick m.S m.fin col (matFrom sel m col os)).2 := by
   induction os with
   | nil =>
     intro col
-    refine ⟨argmaxLast (fun k => ix col k * m.fin k) m.S, [], rfl, argmaxLast_lt _ hS, by simp [paths], ?_, ?_⟩
+    refine ⟨pick (fun k => ix col k * m.fin k) m.S, [], rfl, (hpick _ _ hS).1, by simp [paths], ?_, ?_⟩
     · simp [tracebackW, matFrom, chain]
     · intro k hk ρ hρ
       simp only [paths, List.length_nil, List.mem_singleton] at hρ
       subst hρ
       simp only [tracebackW, matFrom, chain]
-      exact le_argmaxLast (fun k => ix col k * m.fin k) hk
+      exact (hpick (fun k => ix col k * m.fin k) m.S hS).2 k hk
   | cons o os ih =>
     intro col
     obtain ⟨j0, π, hp, hj0, hπ, hval, hub⟩ := ih (stepV sel m col o).1
@@ -348,10 +396,34 @@ theorem traceback_spec {sel : Sel} (hsel : IsArgmax sel) (m : Hmm) (hS : 0 < m.S
         _ ≤ _ := hub j hj ρ' hρ'
 
 theorem traceback_eq_W (S : Nat) (col : List Nat) (mats : List (List Nat × List Nat)) :
-    traceback S col mats = tracebackW S (fun _ => 1) col mats := by
+    traceback S col mats = tracebackW argmaxLast S (fun _ => 1) col mats := by
   induction mats generalizing col with
   | nil => simp [traceback, tracebackW]
   | cons cf rest ih => simp only [traceback, tracebackW, ih]
+
+/-- **the end term is added after the matrix is complete**: the literal traceback on the matrices whose last
+value column was multiplied by the end weights is the traceback that weights the last column by `fin` before
+its arg-max — the back-pointer columns are the ones `viterbi_matrices` computed without the end term -/
+theorem traceback_addEnd (m : Hmm) (hS : 0 < m.S) (mats : List (List Nat × List Nat)) : ∀ col : List Nat,
+    traceback m.S (addEnd m col mats).1 (addEnd m col mats).2 = tracebackW argmaxLast m.S m.fin col mats := by
+  induction mats with
+  | nil =>
+    intro col
+    have hc : argmaxLast (ix (endCol m col)) m.S = argmaxLast (fun k => ix col k * m.fin k) m.S :=
+      argmaxLast_congr (fun k hk => by simp only [endCol, ix_tab _ hk])
+    have hlt : argmaxLast (fun k => ix col k * m.fin k) m.S < m.S := argmaxLast_lt _ hS
+    simp only [addEnd, traceback, tracebackW, hc]
+    simp only [endCol, ix_tab _ hlt]
+  | cons cf rest ih =>
+    intro col
+    simp only [addEnd, traceback, tracebackW, ih]
+
+/-- `addEnd` leaves every back-pointer column as it was -/
+theorem addEnd_ptrs (m : Hmm) (mats : List (List Nat × List Nat)) : ∀ col : List Nat,
+    (addEnd m col mats).2.map (·.2) = mats.map (·.2) := by
+  induction mats with
+  | nil => intro col; rfl
+  | cons cf rest ih => intro col; simp only [addEnd, List.map_cons, ih]
 
 theorem matFrom_noEnd (sel : Sel) (m : Hmm) (col : List Nat) (os : List Nat) :
     matFrom sel m.noEnd col os = matFrom sel m col os := by
@@ -359,22 +431,62 @@ theorem matFrom_noEnd (sel : Sel) (m : Hmm) (col : List Nat) (os : List Nat) :
   | nil => rfl
   | cons o os ih => simp only [matFrom, ih]; rfl
 
-/-- the code mirror is the general algorithm with the zero-aware selector on the model without end term -/
-theorem viterbi_eq_viterbiWith_noEnd (m : Hmm) (obs : List Nat) : viterbi m obs = viterbiWith selZ m.noEnd obs := by
+/-- with `has_end_state()` the code mirror is the general algorithm (zero-aware selector, last maximum) -/
+theorem viterbi_eq_viterbiWith_of_hasEnd (m : Hmm) (hS : 0 < m.S) (he : m.hasEnd = true) (obs : List Nat) :
+    viterbi m obs = viterbiWith selZ argmaxLast m obs := by
+  cases obs with
+  | nil => rfl
+  | cons o os => simp only [viterbi, viterbiWith, he, if_true, traceback_addEnd m hS]
+
+/-- without `has_end_state()` it is the general algorithm on the model without end term -/
+theorem viterbi_eq_viterbiWith_noEnd (m : Hmm) (he : m.hasEnd = false) (obs : List Nat) :
+    viterbi m obs = viterbiWith selZ argmaxLast m.noEnd obs := by
   cases obs with
   | nil => rfl
   | cons o os =>
-    simp only [viterbi, viterbiWith, traceback_eq_W, matFrom_noEnd]
+    simp only [viterbi, viterbiWith, he, traceback_eq_W, matFrom_noEnd]
     rfl
 
-theorem viterbiWith_spec {sel : Sel} (hsel : IsArgmax sel) (m : Hmm) (hS : 0 < m.S) (obs : List Nat) (h : obs ≠ []) :
-    (viterbiWith sel m obs).1 ∈ paths m.S obs.length ∧
-    joint m obs (viterbiWith sel m obs).1 = (viterbiWith sel m obs).2 ∧
-    ∀ ρ ∈ paths m.S obs.length, joint m obs ρ ≤ (viterbiWith sel m obs).2 := by
+/-- the end weights enter `chain` only through the last state of the path -/
+theorem chain_noEnd_of_WF (m : Hmm) (hwf : m.WF) (he : m.hasEnd = false) : ∀ (os π : List Nat) (s : Nat),
+    s < m.S → (∀ q ∈ π, q < m.S) → chain m.noEnd s os π = chain m s os π := by
+  intro os
+  induction os with
+  | nil =>
+    intro π s hs _
+    cases π with
+    | nil => simp only [chain, Hmm.noEnd, hwf he s hs]
+    | cons q qs => simp only [chain]
+  | cons o os ih =>
+    intro π s hs hπ
+    cases π with
+    | nil => simp only [chain]
+    | cons q qs =>
+      simp only [chain]
+      rw [ih qs q (hπ q (by simp)) (fun x hx => hπ x (by simp [hx]))]
+      rfl
+
+theorem joint_noEnd_of_WF (m : Hmm) (hwf : m.WF) (he : m.hasEnd = false) (obs π : List Nat)
+    (hπ : ∀ q ∈ π, q < m.S) : joint m.noEnd obs π = joint m obs π := by
+  cases obs with
+  | nil => cases π <;> simp only [joint]
+  | cons o os =>
+    cases π with
+    | nil => simp only [joint]
+    | cons q qs =>
+      simp only [joint]
+      rw [chain_noEnd_of_WF m hwf he os qs q (hπ q (by simp)) (fun x hx => hπ x (by simp [hx]))]
+      rfl
+
+theorem viterbiWith_spec {sel : Sel} (hsel : IsArgmax sel) {pick : Pick} (hpick : IsPick pick) (m : Hmm) (hS : 0 < m.S)
+    (obs : List Nat) (h : obs ≠ []) :
+    (viterbiWith sel pick m obs).1 ∈ paths m.S obs.length ∧
+    joint m obs (viterbiWith sel pick m obs).1 = (viterbiWith sel pick m obs).2 ∧
+    ∀ ρ ∈ paths m.S obs.length, joint m obs ρ ≤ (viterbiWith sel pick m obs).2 := by
   cases obs with
   | nil => exact absurd rfl h
   | cons o os =>
-    obtain ⟨k0, π, hp, hk0, hπ, hval, hub⟩ := traceback_spec hsel m hS os (col0 m o)
+    obtain ⟨k0, π, hp, hk0, hπ, hval, hub⟩ := traceback_spec hsel hpick m hS os (col0 m o)
     simp only [viterbiWith, hp, List.length_cons]
     refine ⟨cons_mem_paths hk0 hπ, ?_, ?_⟩
     · rw [← hval]; simp only [joint, col0, ix_tab _ hk0]
@@ -387,7 +499,26 @@ theorem viterbiE_spec (m : Hmm) (hS : 0 < m.S) (obs : List Nat) (h : obs ≠ [])
     (viterbiE m obs).1 ∈ paths m.S obs.length ∧
     joint m obs (viterbiE m obs).1 = (viterbiE m obs).2 ∧
     ∀ ρ ∈ paths m.S obs.length, joint m obs ρ ≤ (viterbiE m obs).2 :=
-  viterbiWith_spec isArgmax_selLast m hS obs h
+  viterbiWith_spec isArgmax_selLast isPick_argmaxLast m hS obs h
+
+/-- the code mirror of `hmm::viterbi` is optimal for every well-formed model, with or without end vector -/
+theorem viterbi_spec (m : Hmm) (hS : 0 < m.S) (hwf : m.WF) (obs : List Nat) (h : obs ≠ []) :
+    (viterbi m obs).1 ∈ paths m.S obs.length ∧
+    joint m obs (viterbi m obs).1 = (viterbi m obs).2 ∧
+    ∀ ρ ∈ paths m.S obs.length, joint m obs ρ ≤ (viterbi m obs).2 := by
+  cases he : m.hasEnd with
+  | true =>
+    rw [viterbi_eq_viterbiWith_of_hasEnd m hS he]
+    exact viterbiWith_spec isArgmax_selZ isPick_argmaxLast m hS obs h
+  | false =>
+    rw [viterbi_eq_viterbiWith_noEnd m he]
+    obtain ⟨hp, hj, hub⟩ := viterbiWith_spec isArgmax_selZ isPick_argmaxLast m.noEnd hS obs h
+    have hp' : (viterbiWith selZ argmaxLast m.noEnd obs).1 ∈ paths m.S obs.length := hp
+    refine ⟨hp', ?_, ?_⟩
+    · rw [← hj, joint_noEnd_of_WF m hwf he obs _ (mem_paths.mp hp').2]
+    · intro ρ hρ
+      rw [← joint_noEnd_of_WF m hwf he obs ρ (mem_paths.mp hρ).2]
+      exact hub ρ hρ
 
 end RbV.Hmm
 
